@@ -91,6 +91,8 @@ def run(ctx):
             for m2 in (0, 1):
                 conds.append(xh.Cond(f"two-tables match1={m1} match2={m2}", "C04.py", "_last", {"m1": m1, "m2": m2, "own_n": 4}, timeout=900, twin="_last_reach"))
     conds.append(xh.Cond("dep5 aggregate", "C04.py", "_dep5", {}, timeout=300, twin="_dep5_reach"))
+    for l0 in range(13):
+        conds.append(xh.Cond(f"two look-ups on one Project carry no state (root shape {SHAPES[l0]})", "C04.py", "_twice", {"levels": [l0, None, None], "carve": carve}, timeout=300, twin="_twice_reach"))
     ctx.functions_encoded = [
         "reuse.project.Project.reuse_info_of",
         "reuse.global_licensing.NestedReuseTOML.reuse_info_of / _find_relevant_tomls / _find_relevant_tomls_and_items",
@@ -104,6 +106,7 @@ def run(ctx):
         "REUSE.toml chain": f"{depth} nested levels (root, a/, a/b/), each absent or one matching table with precedence in {{closest, aggregate, override}} x information in {{none, copyright, licence, both}}: complete",
         "two tables": "one REUSE.toml with two tables, each of the 12 shapes, each matching or not (last match wins)",
         "dep5": "one Files paragraph matching or not x own x sibling",
+        "sequence": "two files under the same 2-level REUSE.toml chain looked up one after the other on one Project object (4 x 4 own-information kinds x 13 x 13 shapes), then the first again",
     }
     ctx.stubs = [
         "reuse.project.reuse_info_of_file -> returns what a file of the chosen kind yields, same contract as the real reader (C02 owns the reader)",
@@ -122,6 +125,8 @@ def run(ctx):
                 return None
             key = ex.get("known_key") or f"cell:{ex['own']}:{ex['sibling']}:{ex['levels']}"
             return key, f"own={ex['own']} sibling={ex['sibling']} levels={ex['levels']}: got {ex['got']}, expected {ex['expected']}", w
+        if c.func == "_twice":
+            return f"stateful:{ex['own_first']}:{ex['own_second']}:{ex['levels']}", f"second look-up on the same Project gives {ex['second']} (expected {ex['second_expected']}); first look-up repeated gives {ex['first_again']} vs {ex['first']}; own={ex['own_first']},{ex['own_second']} levels={ex['levels']}", {"harness": "C04.py::_twice", "explain": ex, "own": "binary"}
         return f"{c.func}:{ex}", f"{c.func}: got {ex.get('got')} expected {ex.get('expected')} for {ex}", {"harness": c.func, "explain": ex, "own": "binary"}
 
     xh.settle(ctx, conds, confirm)
